@@ -404,7 +404,7 @@ MUTATORS = {
     'phases=gl': ([], ['phs:gl'], 'l'), 'phases=gls': ([], ['phs:gls'], 'm'),
     'imol[ID]=x': ([], ['fl'], 'lm'), 'imol[ID]=0': ([], ['fl:zero'], 'lm'), 'imol[Water]=x': ([], ['flw'], 'lm'),
     'mol=array': ([], ['mol'], 'lm'), 'set_flow': ([], ['setflow'], 'lm'),
-    'scale': ([], ['sc'], 'lm'), 'imul': ([], ['imul'], 'lm'), 'F_mol=': ([], ['Fmol'], 'lm'), 'empty': ([], ['empty'], 'lm'),
+    'scale': ([], ['sc'], 'lm'), 'imul': ([], ['imul'], 'lm'), 'F_mol=': ([], ['Fmol'], 'l'), 'empty': ([], ['empty'], 'lm'),
     'mix_from(self+other)': ([], ['mix'], 'l'), 'mix_from(other) energy balance': ([], ['mixHo'], 'lm'),
     'mix_from(other)': ([], ['mixo'], 'lm'), 'separate_out': ([], ['sep'], 'l'),
     'copy_like': ([], ['copylike'], 'lm'), 'copy_flow': ([], ['copyflow'], 'lm'),
